@@ -103,6 +103,24 @@ impl Channel {
     pub(crate) fn recv(&self, location: Location) {
         self.state
             .branch_disable(Action::MsgRecv, self.is_empty(), location);
+        self.post_recv();
+    }
+
+    /// Receives a message if one is queued. Returns `false` (without blocking)
+    /// if the channel is empty.
+    ///
+    /// Unlike `is_empty`, this is a branch point: whether a racing `send` is
+    /// observed depends on the interleaving, which must be explored.
+    pub(crate) fn try_recv(&self, location: Location) -> bool {
+        self.state.branch_action(Action::MsgRecv, location);
+        if self.is_empty() {
+            return false;
+        }
+        self.post_recv();
+        true
+    }
+
+    fn post_recv(&self) {
         super::execution(|execution| {
             let state = self.state.get_mut(&mut execution.objects);
             let thread_id = execution.threads.active_id();
@@ -162,10 +180,20 @@ impl State {
         }
     }
 
-    pub(super) fn last_dependent_access(&self, action: Action) -> Option<&Access> {
-        match action {
-            Action::MsgSend => self.last_send_access.as_ref(),
-            Action::MsgRecv => self.last_recv_access.as_ref(),
+    pub(super) fn last_dependent_access(&self, _action: Action) -> Option<&Access> {
+        // Sends and receives do not commute with each other (a receive, or an
+        // emptiness test, observes whether a send has happened), so every
+        // channel operation depends on the most recent operation of either
+        // kind.
+        match (self.last_send_access.as_ref(), self.last_recv_access.as_ref()) {
+            (Some(send), Some(recv)) => {
+                if send.path_id() >= recv.path_id() {
+                    Some(send)
+                } else {
+                    Some(recv)
+                }
+            }
+            (send, recv) => send.or(recv),
         }
     }
 
